@@ -37,6 +37,10 @@ type upd struct {
 	Flags   []string `json:"flags,omitempty"`
 	Marker  string   `json:"marker,omitempty"`
 	Allow   bool     `json:"allow,omitempty"`
+	// MailboxCreated: the three sets of the mailbox, independent of each other (nil = the harness default)
+	MbFlags []string `json:"mb_flags,omitempty"`
+	MbPerm  []string `json:"mb_perm,omitempty"`
+	MbAttrs []string `json:"mb_attrs,omitempty"`
 	// filled after the run: internal ids of the messages the update created, in creation order; UIDVALIDITY values drawn
 	Fresh []string `json:"-"`
 	Gens  []int    `json:"-"`
@@ -64,8 +68,8 @@ func mboxIDs(xs []string) []imap.MailboxID {
 func (u *upd) build(delim string) (imap.Update, error) {
 	switch u.Kind {
 	case "MailboxCreated":
-		fl := imap.NewFlagSet(imap.FlagSeen, imap.FlagFlagged, imap.FlagDeleted)
-		return imap.NewMailboxCreated(imap.Mailbox{ID: imap.MailboxID(u.MboxRID), Name: strings.Split(u.Name, delim), Flags: fl, PermanentFlags: fl, Attributes: imap.NewFlagSet()}), nil
+		u.defaults()
+		return imap.NewMailboxCreated(imap.Mailbox{ID: imap.MailboxID(u.MboxRID), Name: strings.Split(u.Name, delim), Flags: flagSet(u.MbFlags), PermanentFlags: flagSet(u.MbPerm), Attributes: flagSet(u.MbAttrs)}), nil
 	case "MailboxDeleted":
 		return imap.NewMailboxDeleted(imap.MailboxID(u.MboxRID)), nil
 	case "MailboxUpdated":
@@ -110,6 +114,15 @@ func (u *upd) build(delim string) (imap.Update, error) {
 	return nil, fmt.Errorf("unknown kind %s", u.Kind)
 }
 
+var defaultMbFlags = []string{`\Seen`, `\Flagged`, `\Deleted`}
+
+// defaults fills the sets of a MailboxCreated that does not spell them out.
+func (u *upd) defaults() {
+	if u.Kind == "MailboxCreated" && u.MbFlags == nil && u.MbPerm == nil && u.MbAttrs == nil {
+		u.MbFlags, u.MbPerm, u.MbAttrs = defaultMbFlags, defaultMbFlags, []string{}
+	}
+}
+
 func (u *upd) canon() string {
 	var sb strings.Builder
 	sb.WriteString(u.Kind)
@@ -121,6 +134,9 @@ func (u *upd) canon() string {
 	}
 	if u.Name != "" {
 		sb.WriteString(" name=" + u.Name)
+	}
+	if u.Kind == "MailboxCreated" && (u.MbFlags != nil || u.MbPerm != nil || u.MbAttrs != nil) {
+		fmt.Fprintf(&sb, " flags=%v permanent=%v attributes=%v", u.MbFlags, u.MbPerm, u.MbAttrs)
 	}
 	if u.MsgIID != "" {
 		sb.WriteString(" iid=<msg>")
@@ -238,7 +254,9 @@ func refApply(s0 *dbSnap, u *upd, nextGen int, litOf map[string]string) refResul
 				maxIID = m.IID
 			}
 		}
-		s.Mb = append(s.Mb, &dbMb{IID: 0 /* resolved later */, RID: u.MboxRID, Name: canonName(u.Name), UIDV: nextGen, Sub: true, Next: 1})
+		u.defaults()
+		s.Mb = append(s.Mb, &dbMb{IID: 0 /* resolved later */, RID: u.MboxRID, Name: canonName(u.Name), UIDV: nextGen, Sub: true, Next: 1,
+			Flags: normSet(u.MbFlags), Perm: normSet(u.MbPerm), Attrs: normSet(u.MbAttrs)})
 		return res
 	case "MailboxDeleted":
 		if u.MboxRID == recoveryRID {
